@@ -923,3 +923,18 @@ package mail
 //@ at mail.msgWriter.writeHeader strings.Builder.WriteString#3 after ghost[C08:g] mw.folds = mw.folds + 1
 //@ at mail.msgWriter.writePart entry ghost[C08:g] mw.folds0 = mw.folds
 //@ at mail.msgWriter.writePart mail.msgWriter.writeString#1 before assert[C08:part-headers-same-bytes-at-every-depth] mw.folds == mw.folds0
+
+// C05 (continued): the DSN options store only values of the fixed alphabets (this discharges, at the options,
+// what dsnok assumes about a Client at the entry points)
+//@ func mail.WithDSNRcptNotifyType$1 (c) (err)
+//@   requires[C05:wf] c != nil
+//@   ensures[C05:dsn-alphabet] err == nil ==> (forall k :: 0 <= k && k < len(c.dsnRcptNotifyType) ==> argsafe(c.dsnRcptNotifyType[k]))
+//@   loop 1 invariant[C05:dsn-alphabet] freshslice(rcptOpts) && (forall k :: 0 <= k && k < len(rcptOpts) ==> argsafe(rcptOpts[k]))
+//@ func mail.WithDSNMailReturnType$1 (c) (err)
+//@   requires[C05:wf] c != nil
+//@   ensures[C05:dsn-alphabet] err == nil ==> (c.dsnReturnType == "HDRS" || c.dsnReturnType == "FULL")
+
+// C08 (continued): the render that is hashed and the render that is emitted use the same charset and the same
+// RFC 2047 word encoder (the Msg's)
+//@ at mail.Msg.signMessage mail.msgWriter.writeMsg#1 before assert[C08:same-encoder-in-both-renders] mw.encoder == m.encoder && mw.charset == m.charset
+//@ at mail.Msg.WriteTo mail.msgWriter.writeMsg#1 before assert[C08:same-encoder-in-both-renders] mw.encoder == m.encoder && mw.charset == m.charset
